@@ -301,7 +301,8 @@ class Exec:
                 summ = ("havoc", loopid, pstr(k))
             st.store.write(k, summ)
         st.asserts = out2.asserts
-        self.loop_info[loopid] = {"fn": fn.label, "header": h, "item": item, "changed": [pstr(k) for k in changed]}
+        self.loop_info[loopid] = {"fn": fn.label, "header": h, "item": item, "changed": [lvname(k) for k in changed],
+                                  "summaries": {lvname(k): self._try_read(st, k) for k in changed}}
         self.write_place(fr, st, t["dest"], ("adt", "Option", (0, "None"), (), True))
         return st, t["target"]
 
